@@ -1,7 +1,16 @@
 From Coq Require Import List Arith ZArith.
 Import ListNotations.
-From UJ Require Import Cache.Logical.
+From UJ Require Import Cache.Logical Cache.StaleSpec.
 
-Theorem C05_placeholder_wf : forall p : plan, p = [] -> wf_plan p.
-Proof. intros p -> i nd H. destruct i; discriminate. Qed.
-Print Assumptions C05_placeholder_wf.
+(** The stale set of [_get_stale_nodes] is exactly the set of out-of-date nodes of the declarative
+    specification [utd] (present; everything it is directly built from is up to date and not newer;
+    not older than fresh_time unless it is a source with nothing upstream); a node without a value
+    store is stale iff some registry node it is directly built from is out of date. *)
+Theorem C05_stale_iff_out_of_date :
+  forall (reg : registry) (sg : sstate) (fresh : option Z) (p : plan),
+  wf_plan p -> forall n : nat, n < length p ->
+  (reg n <> None -> is_stale reg sg fresh p n = false <-> utd reg sg fresh p n) /\
+  (reg n = None ->
+   is_stale reg sg fresh p n = true <-> (exists m : nat, upstream reg p n m /\ ~ utd reg sg fresh p m)).
+Proof. exact stale_iff_out_of_date. Qed.
+Print Assumptions C05_stale_iff_out_of_date.
